@@ -2,7 +2,7 @@
    (Gen/Total.v) and the general facts about isinstance-chain dispatch (C12). *)
 From Coq Require Import String List Bool.
 Import ListNotations.
-Require Import PV.Total.Dispatch PV.Gen.Total.
+Require Import PV.Total.Dispatch PV.Total.Emit PV.Gen.Total.
 Open Scope string_scope.
 
 (* a chain with a crashing fall-through is total exactly on the subclasses of its targets *)
@@ -96,3 +96,9 @@ Lemma codes_registry_wellformed :
   nodup_str registered_codes = true /\ mem_str "internal_error" registered_codes = true /\
   mem_str "invalid_annotation" registered_codes = true /\ 50 <= length registered_codes.
 Proof. vm_compute. repeat split; try reflexivity. repeat constructor. Qed.
+
+(* ---- show_error: the source still has the shape Total/Emit.v was written for ---- *)
+Lemma show_error_shape_pinned :
+  show_error_subscripts = pinned_subscripts /\ show_error_context_bounds = pinned_context_bounds /\
+  BinInt.Z.of_nat show_error_context_lines = CONTEXT_LINES.
+Proof. vm_compute. repeat split; reflexivity. Qed.
